@@ -13,6 +13,10 @@ elif len(sys.argv) > 4 and sys.argv[4] == "conventions":
     steer = """
 For this round: at least one of your changes must be a slip in a CONVENTION or a SILENT FALLBACK rather than in the logic a reader would check first - degrees versus radians, km versus m, log10 versus natural log, GeV versus 100 PeV, a sign or orientation (longitude wrap, azimuth origin, which of two angles is the complement), an inclusive versus exclusive bound, an off-by-one in a table or grid index, a default argument or an `except` / `if missing` path that quietly substitutes a value. It must still be SPECIFIC: visible only for some inputs, configurations or histories (a convention slip that is wrong everywhere is not acceptable). And at least one of your changes must be made in a file that is NOT among the files the property is anchored in (a utility, the constants, a decorator, a data-loading or plotting helper, the configuration layer, the command line, compute.py) yet breaks the property through the way the anchored code uses it.
 """
+elif len(sys.argv) > 4 and sys.argv[4] == "entrypoints":
+    steer = """
+For this round: at least one of your changes must be visible only through an ALTERNATIVE ENTRY POINT or CALL FORM of the same functionality - a Python scalar versus a 0-d or n-d array argument, keyword versus positional arguments, explicitly supplied versus internally drawn random numbers, the command line (`nuspacesim run`, `create-config`, `show-plot` and their options) versus the Python API, `config_from_toml` / `config_from_fits` versus the constructors, a value read back from a results file versus the value in memory - while the most common way of calling the code stays correct. And at least one must be a NUMERICAL-PRECISION change: a float32 / float64 choice, a re-ordered or re-associated sum or product, a guard (clip, where, isclose, a tolerance constant, an epsilon) whose threshold is slightly off, an algebraically equivalent formula that cancels - so that results move by far more than rounding only in an ill-conditioned corner of the quantified domain and by nothing visible elsewhere.
+"""
 elif len(sys.argv) > 4 and sys.argv[4] == "interaction":
     steer = """
 For this round: at least one of your changes must live in an INTERACTION rather than in a single formula - between two calls on one object, between two objects or two stages of the pipeline, between the library and its environment (files, the process, configuration objects that outlive a call, the dtype / memory layout / length of the arrays passed in), or between two edits that are each harmless alone. And at least one must sit at a code site that is NOT the most obvious function for this property: a helper, decorator or utility it depends on, the wiring in compute.py or the command line, a constructor, or a data-handling routine.
